@@ -2088,6 +2088,7 @@ func (s *sequenceState) opLock(args *nfsv4.Lock4args) nfsv4.Lock4res {
 				},
 				fileCount: 1,
 			}
+			cis.lockOwnersByOwner[lockOwnerKey] = los
 			defer los.decreaseFileCount()
 		}
 		lofs = oofs.lockOwnerFiles[los]
